@@ -311,3 +311,65 @@ pub proof fn wmc_bdd_corollary<T: Semiring>(p: BddPtr, c: bool, w: W<T>, o: VarO
     }
     wmc_theorem(p, c, w, vs, env);
 }
+
+/// pointwise sum of two functions
+pub open spec fn gadd<T: Semiring>(g1: GF<T>, g2: GF<T>) -> GF<T> { |e: Env| g1(e).add_spec(g2(e)) }
+/// the sum is additive
+pub proof fn zsum_add<T: Semiring>(g1: GF<T>, g2: GF<T>, w: W<T>, vs: Seq<u64>, env: Env)
+    requires csr::<T>(), wv(w), gv(g1), gv(g2),
+    ensures zsum(gadd(g1, g2), w, vs, env) == zsum(g1, w, vs, env).add_spec(zsum(g2, w, vs, env)),
+    decreases vs.len(),
+{
+    if vs.len() > 0 {
+        let v = vs.last(); let r = vs.drop_last();
+        let e0 = upd(env, v, false); let e1 = upd(env, v, true);
+        zsum_add(g1, g2, w, r, e0); zsum_add(g1, g2, w, r, e1);
+        zsum_valid(g1, w, r, e0); zsum_valid(g1, w, r, e1); zsum_valid(g2, w, r, e0); zsum_valid(g2, w, r, e1);
+        let a0 = zsum(g1, w, r, e0); let a1 = zsum(g1, w, r, e1); let b0 = zsum(g2, w, r, e0); let b1 = zsum(g2, w, r, e1);
+        c_distr(w(v).0, a0, b0); c_distr(w(v).1, a1, b1);
+        c_closed(w(v).0, a0); c_closed(w(v).0, b0); c_closed(w(v).1, a1); c_closed(w(v).1, b1);
+        c_add_swap(w(v).0.mul_spec(a0), w(v).0.mul_spec(b0), w(v).1.mul_spec(a1), w(v).1.mul_spec(b1));
+    }
+}
+/// THEOREM (C11, first sentence, for BDD / decision-DNNF pointers): under normalised weights the count -- and so the
+/// semantic hash, which is the count under the hash weights -- is determined by the Boolean function: two diagrams of
+/// any shape, order or history that denote the same function have the same count
+pub proof fn wmc_denotational<T: Semiring>(p: BddPtr, q: BddPtr, w: W<T>, vs: Seq<u64>)
+    requires
+        csr::<T>(), wv(w), distinct(vs), decides_once(p), decides_once(q),
+        forall|x: VarLabel| mentions(p, x) || mentions(q, x) ==> vs.contains(x.0),
+        forall|i: int| 0 <= i < vs.len() ==> normalised(w, #[trigger] vs[i]),
+        forall|e: Env| ptr_sem(p, e) == ptr_sem(q, e),
+    ensures
+        wmc_spec(p, false, w) == wmc_spec(q, false, w),
+{
+    let env = |x: u64| false;
+    wmc_theorem(p, false, w, vs, env);
+    wmc_theorem(q, false, w, vs, env);
+    assert(indf::<T>(p, false) =~= indf::<T>(q, false));
+}
+/// THEOREM (C11, "a negation hashes to one minus the hash", in semiring form): the counts of a diagram and of its
+/// complement add up to one
+pub proof fn wmc_neg_complement<T: Semiring>(p: BddPtr, w: W<T>, vs: Seq<u64>)
+    requires
+        csr::<T>(), wv(w), distinct(vs), decides_once(p),
+        forall|x: VarLabel| mentions(p, x) ==> vs.contains(x.0),
+        forall|i: int| 0 <= i < vs.len() ==> normalised(w, #[trigger] vs[i]),
+    ensures
+        wmc_spec(p, false, w).add_spec(wmc_spec(p, true, w)) == T::one_s(),
+        wmc_spec(p.neg_s(), false, w) == wmc_spec(p, true, w),
+{
+    c_consts::<T>();
+    let env = |x: u64| false;
+    wmc_theorem(p, false, w, vs, env);
+    wmc_theorem(p, true, w, vs, env);
+    let g1 = indf::<T>(p, false); let g2 = indf::<T>(p, true);
+    assert(gv(g1)); assert(gv(g2));
+    zsum_add(g1, g2, w, vs, env);
+    let k = |e: Env| T::one_s();
+    assert(gadd(g1, g2) =~= k) by {
+        assert forall|e: Env| #[trigger] gadd(g1, g2)(e) == T::one_s() by { c_add_zero(T::one_s()); }
+    }
+    zsum_const(k, T::one_s(), w, vs, env);
+    lemma_bfs_neg(p, false, wmc_alg(w, T::one_s(), T::zero_s()));
+}
